@@ -179,7 +179,18 @@ def opQuery (payload : String) : String :=
       let r := run q A B { refuseFrom := refuse }
       -- cross-check of the specification layer (what the theorems state) on this very case
       let specOk : Json :=
-        if refuse.isSome || q.isAgg then .null
+        if refuse.isSome then .null
+        else if q.isAgg then
+          (if q.isUpdate || q.orderBy.isSome || q.distinct != .no then .null
+           else if let some e := (q.join.bind (fun js => joinBError js.rhs B)) then .bool (r.error == some e)
+           else match aggEmissions q B A 0 with
+            | .error e => .bool (r.error == some e)
+            | .ok krs =>
+              if krs.all (fun kr => kr.2.1.length == (match krs with | (_, _, e0) :: _ => (aggColKinds q.items e0).length | [] => 0)) then
+                (match aggRowsSpec q krs with
+                 | .ok rows => .bool (r.error.isNone && r.rows == rows)
+                 | .error _ => .bool r.error.isSome)
+              else .null)
         else if q.isUpdate then
           (if let some e := (q.join.bind (fun js => joinBError js.rhs B)) then .bool (r.error == some e)
            else match updateSpec q B A 0 0 with
